@@ -11,12 +11,12 @@ CLAIMED = {
         technique="deterministic simulation: seeded histories + fault injection (VM-instruction fault hook, faulty module importer), twin-session refinement oracle, from-scratch and fresh-process (fork) references",
         ref="§5 C06"),
     "C07": dict(
-        text="Seeded search over successful histories executed in five modes (one input per line, all joined, chunked at seeded points, scripted REPL with failing traffic and read-only commands followed by save and replay of the saved file, fork of the session with independent continuations) with per-element and final observational comparison; save is additionally run against fault-injecting writers and real unwritable destinations with a byte-exact model. Thorough tier cross-checks the REPL glue against the real binary. Fork runs take the pair under test and its two references from three independently built base contexts; each side re-defines the sibling's names, defines identifiers derived from the sibling's units and echoes the sibling's last line. A crash of the real interactive binary is a violation.",
+        text="Seeded search over successful histories executed in five modes (one input per line, all joined, chunked at seeded points, scripted REPL with failing traffic and read-only commands followed by save and replay of the saved file, fork of the session with independent continuations) with per-element and final observational comparison; save is additionally run against fault-injecting writers and real unwritable destinations with a byte-exact model. Thorough tier cross-checks the REPL glue against the real binary. Fork runs take the pair under test and its two references from three independently built base contexts; each side re-defines the sibling's names, defines identifiers derived from the sibling's units and echoes the sibling's last line. A crash of the real interactive binary is a violation. One line-by-line replay in three runs on a short-lived thread of its own, so that per-thread state of the interpreter cannot reach the reference mode.",
         note="Trusted: the simulator, the ~20-line copy of the REPL loop glue (cross-validated against the real binary in the thorough tier), Display output as observation channel.",
         technique="deterministic simulation: seeded histories under seeded split/clone/save schedules with I/O fault injection on the save writer; cross-mode refinement + byte-exact save model",
         ref="§5 C07"),
     "C17": dict(
-        text="Imports as commutative idempotent deliveries: seeded subsets of the real standard-library modules delivered in seeded orders with duplication and batching (separate inputs, one input, nested through synthetic modules); every delivery must succeed, duplicates must cause zero importer calls and no state change, the final observable digest (names, types, values, unit and dimension definitions) must equal that of the canonical delivery. Thorough tier enumerates all ordered pairs exhaustively. A by-construction import-effect oracle (definitions found in a delivered module's source text must be listed), deliveries through numbat's own importers (embedded, file system, two-root file system with overrides, chained user directory) and a module-list check complete it.",
+        text="Imports as commutative idempotent deliveries: seeded subsets of the real standard-library modules delivered in seeded orders with duplication and batching (separate inputs, one input, nested through synthetic modules); every delivery must succeed, duplicates must cause zero importer calls and no state change, the final observable digest (names, types, values, unit and dimension definitions) must equal that of the canonical delivery. Thorough tier enumerates all ordered pairs exhaustively. A by-construction import-effect oracle (definitions found in a delivered module's source text must be listed), deliveries through numbat's own importers (embedded, file system, two-root file system with overrides, chained user directory) and a module-list check complete it. The canonical (reference) delivery runs on a short-lived thread of its own.",
         note="Trusted: the simulator and digest; exchange rates pinned by numbat's own test stub; units::currencies evaluated with rate 1.0.",
         technique="deterministic simulation: seeded delivery schedules (reorder, duplicate, batch) of module imports through an instrumented importer and through numbat's own importers; convergence oracle; exhaustive ordered pairs in thorough",
         ref="§5 C17"),
